@@ -313,3 +313,41 @@ example : written (addonEvents Save.init
   rfl
 
 end MitmVerif.Props.C37
+
+-- ------------------------------------------------------------------------------------------------
+-- cross-audit (round 6): the hypotheses of the buffered / hook / addon theorems hold together on a concrete two-record run
+-- ------------------------------------------------------------------------------------------------
+namespace MitmVerif.Props.C37
+open MitmVerif MitmVerif.C36 MitmVerif.C37
+
+example :
+    (∃ k, readAll env0 ((BFile.empty.runOps ((hookOps [.save st1, .noop, .save st2] [0, 3]).take 3)).disk.take 12) = ([0, 1].take k, .clean) ∨
+          readAll env0 ((BFile.empty.runOps ((hookOps [.save st1, .noop, .save st2] [0, 3]).take 3)).disk.take 12) = ([0, 1].take k, .flowRead)) ∧
+    (∃ k, readAll env0 ((BFile.empty.runOps ((explicitOps [st1, st2] [5]).take 2)).disk.take 9) = ([0, 1].take k, .clean) ∨
+          readAll env0 ((BFile.empty.runOps ((explicitOps [st1, st2] [5]).take 2)).disk.take 9) = ([0, 1].take k, .flowRead)) ∧
+    (∃ k, readAll env0 ((pyWrite 4 BFile.empty (dumps st1)).disk.take 7) = ([0, 1].take k, .clean) ∨
+          readAll env0 ((pyWrite 4 BFile.empty (dumps st1)).disk.take 7) = ([0, 1].take k, .flowRead)) ∧
+    readAll env0 (BFile.empty.runOps (hookOps ([Event.save st1, .noop, .save st2].take 2) [0, 3])).disk
+      = ([0, 1].take (written ([Event.save st1, .noop, .save st2].take 2)).length, .clean) := by
+  have hg : Good env0 0 [st1, st2] [0, 1] := by
+    simp only [Good, st1, st2, env0, isDict, and_true]
+    refine ⟨⟨?_, ?_, ?_, ?_⟩, ?_, ?_, ?_⟩
+    · simp [WF, WFPairs, hashable, utf8Valid, maxStrDigits]; decide +kernel
+    · decide +kernel
+    · decide +kernel
+    · decide +kernel
+    · simp [WF, WFPairs]
+    · decide +kernel
+    · decide +kernel
+  refine ⟨crash_prefix_every_hook_sequence env0 [.save st1, .noop, .save st2] [0, 1] hg [0, 3] 3 12,
+    explicit_save_crash_consistent env0 [st1, st2] [0, 1] hg [5] 2 9,
+    cpython_buffered_explicit_save env0 [st1, st2] [0, 1] hg 4 (pyWrite 4 BFile.empty (dumps st1)) (by simp [pyExplicit]) 7,
+    stream_disk_complete_at_every_hook env0 [.save st1, .noop, .save st2] [0, 1] hg [0, 3] 2⟩
+
+-- the addon history theorems on a history with a start, two flows, a websocket-less response and a done():
+example : written (addonEvents Save.init [.start, .hook .request 1 false true st2, .hook .response 1 false true st1,
+      .hook .tcp_start 3 false true st2, .done [(3, true, st2)]]) = [st1, st2] ∧
+    finishedStates false [.start, .hook .request 1 false true st2, .hook .response 1 false true st1,
+      .hook .tcp_start 3 false true st2, .done [(3, true, st2)]] = [st1] := ⟨rfl, rfl⟩
+
+end MitmVerif.Props.C37
